@@ -15,25 +15,34 @@ def varies (L : Layout) (i d : Nat) : Bool := (L.getD i []).getD d false
 /-- directions varying along dimension `d` -/
 def along (L : Layout) (d : Nat) : List Nat := (List.range 3).filter (fun i => varies L i d)
 
-/-- `(dim, direction)` of the 1-D factors: dimensions along which exactly one direction varies -/
-def oneD (L : Layout) : List (Nat × Nat) :=
+/-- `(dim, direction)` of the 1-D factors AS SHIPPED (before the repair): every dimension along which exactly one direction varies -/
+def oneDShipped (L : Layout) : List (Nat × Nat) :=
   (List.range 3).filterMap (fun d => match along L d with | [i] => some (d, i) | _ => none)
 
 /-- directions in the joint tessellation: the union over the dimensions along which more than one direction varies -/
 def joint (L : Layout) : List Nat :=
   (List.range 3).filter (fun i => (List.range 3).any (fun d => varies L i d && decide (2 ≤ (along L d).length)))
 
+/-- directions that get a 1-D factor: not part of the joint tessellation and alone along at least one dimension (the factor is
+computed over all dimensions along which the direction is the only one varying) -/
+def oneD (L : Layout) : List Nat :=
+  (List.range 3).filter (fun i => !(joint L).contains i && (List.range 3).any (fun d => along L d == [i]))
+
 /-- exponent of `|a|` in the weights computed by the code -/
 def degree (L : Layout) : Nat := (oneD L).length + (joint L).length
+
+/-- exponent of the code as shipped: one factor per dimension with a single varying direction, plus the joint tessellation -/
+def degreeShipped (L : Layout) : Nat := (oneDShipped L).length + (joint L).length
 
 /-- number of directions with an extent: the exponent the cell volumes of the sample points have -/
 def dEnc (L : Layout) : Nat := ((List.range 3).filter (fun i => (List.range 3).any (fun d => varies L i d))).length
 
 /-- how often direction `i` enters the product: once per 1-D factor, once if it is in the joint tessellation -/
-def count (L : Layout) (i : Nat) : Nat := ((oneD L).filter (fun p => p.2 == i)).length + (if (joint L).contains i then 1 else 0)
+def count (L : Layout) (i : Nat) : Nat := (if (oneD L).contains i then 1 else 0) + (if (joint L).contains i then 1 else 0)
+def countShipped (L : Layout) (i : Nat) : Nat := ((oneDShipped L).filter (fun p => p.2 == i)).length + (if (joint L).contains i then 1 else 0)
 
-/-- no direction is counted twice -/
-def wellFormed (L : Layout) : Bool := (List.range 3).all (fun i => decide (count L i ≤ 1))
+/-- no direction was counted twice by the shipped decomposition -/
+def wellFormedShipped (L : Layout) : Bool := (List.range 3).all (fun i => decide (countShipped L i ≤ 1))
 
 /-- the layout given by nine flags, row-major: kz along (k2,k1,k0), ky …, kx … -/
 def ofFlags (a b c d e f g h i : Bool) : Layout := [[a, b, c], [d, e, f], [g, h, i]]
